@@ -2,6 +2,7 @@ package streamwriter
 
 import (
 	"bytes"
+	"context"
 	"errors"
 	"io"
 )
@@ -63,15 +64,33 @@ func (w *writer[SizeT, Req, Resp]) Close() error {
 	return nil
 }
 
-// send sends one chunk. When the server has already ended the call, Send reports only
-// io.EOF: the status the server ended it with is what CloseAndRecv returns.
+// clientStream is what a gRPC client stream offers besides Send and CloseAndRecv.
+type clientStream interface {
+	Context() context.Context
+	RecvMsg(m any) error
+}
+
+// send sends one chunk. When the call is over, Send reports only io.EOF: the status
+// it ended with (the server's verdict, or what broke the connection) is what RecvMsg returns.
+// The stream is not half-closed: an upload that could not be written must never pass for complete.
 func (w *writer[SizeT, Req, Resp]) send(p []byte) error {
 	err := w.stream.Send(w.req(p))
-	if errors.Is(err, io.EOF) {
-		_, rErr := w.stream.CloseAndRecv()
-		if rErr != nil {
-			return rErr
-		}
+	if !errors.Is(err, io.EOF) {
+		return err
+	}
+
+	s, ok := any(w.stream).(clientStream)
+	if !ok {
+		return err
+	}
+
+	// asking for the context makes this attempt final: gRPC no longer replays
+	// what was sent so far on a new connection and waits for an answer to it
+	_ = s.Context()
+
+	rErr := s.RecvMsg(new(Resp))
+	if rErr != nil && !errors.Is(rErr, io.EOF) {
+		return rErr
 	}
 
 	return err
